@@ -425,11 +425,15 @@ class K20:
                     p.trace.append(("begin_args", list(argv)))
                     return r
                 if re.search(r"as Serialize(Seq|Map)>::end$", name):
-                    return self.ser_call(p, "end")
+                    r = self.ser_call(p, "end")
+                    p.trace.append(("end_args", list(argv)))
+                    return r
                 m = re.search(r"as (SeqAccess|MapAccess)<'_>>::(next_element_seed|next_key_seed|next_value_seed)::<&mut (Seq|Key|Value)Seed<'_, ", name)
                 if m:
                     sst = proj(argv[1], "f0")
                     n = len([t for t in p.trace if t[0] == "next"])
+                    par = Heap.get(ex, p, proj(sst, self.PARENT))
+                    p.trace.append(("seed_parent", m.group(2), par, argv[0]))
                     r = self.result(p)
                     s, e = self.havoc_state(ex, p, sst)
                     # Err(d): the seed failed (Inv_V for the seed, d passed through) or the deserializer failed by itself (seed untouched: source De, d REAL)
@@ -456,8 +460,26 @@ class K20:
                 ba = [t for t in p.trace if t[0] == "begin_args"]
                 if len(ba) != 1 or len(hints) != 1 or not ex.valid(p, z3.And(ba[0][1][0] == ser, ba[0][1][1] == hints[0][1]))[0]:
                     self.bad("visit_%s opens the collection on its own serializer with exactly the length the deserializer announced (a length-prefixed target writes that count into its header)" % coll, step="V")
+                begins = [t for t in p.trace if t[0] == "begin"]
+                sp = [t for t in p.trace if t[0] == "seed_parent"]
+                if begins and sp:
+                    coll_ser = proj(begins[0][1], "Ok.0")
+                    for t in sp:
+                        if not ex.valid(p, z3.And(disc(t[2]) == 1, proj(t[2], "Some.0") == coll_ser, t[3] == acc))[0]:
+                            self.bad("visit_%s pulls every element from the access object it was given, through a fresh seed that writes to the collection serializer opened for THIS collection" % coll, step="V")
+                            break
+                    order = [t[1] for t in sp]
+                    want = (["next_element_seed"] * len(order)) if coll == "seq" else (["next_key_seed", "next_value_seed"] * len(order))[:len(order)]
+                    if order != want:
+                        self.bad("visit_%s alternates key and value pulls (one element pull per step for sequences)" % coll, step="V", order=order)
+                ea = [t for t in p.trace if t[0] == "end_args"]
+                if ea and begins and not ex.valid(p, ea[0][1][0] == proj(begins[0][1], "Ok.0"))[0]:
+                    self.bad("visit_%s closes the collection serializer it opened" % coll, step="V")
                 if ex.valid(p, disc(value) == 0)[0]:
                     seen.add("ok")
+                    nxs = [t for t in p.trace if t[0] == "next"]
+                    if not nxs or not ex.valid(p, z3.And(disc(nxs[-1][3]) == 0, disc(proj(nxs[-1][3], "Ok.0")) == 0))[0] or nxs[-1][1] == "next_value_seed":
+                        self.bad("visit_%s ends the collection only when the deserializer reports its end" % coll, step="V")
                     ends = [t for t in p.trace if t[0] == "end"]
                     if len(ends) != 1 or not ex.valid(p, z3.And(disc(ends[0][1]) == 0, proj(value, "Ok.0") == proj(ends[0][1], "Ok.0")))[0]:
                         self.bad("visit_%s succeeds only with the Ok value of the collection serializer's end()" % coll)
